@@ -56,6 +56,15 @@ fn main() {
         return;
     }
     #[cfg(feature = "native")]
+    if id == "show-transit" {
+        // tsverif show-transit <dir>: write every transit program to <dir>/<id>.js (developer aid)
+        let _ = std::fs::create_dir_all(&cmd);
+        for it in transit::items() {
+            let prog = checks::c01::batch_program(std::slice::from_ref(&it));
+            let _ = std::fs::write(format!("{}/{}.js", cmd, it.id), prog);
+        }
+        return;
+    }
     if id == "show-c10" {
         // tsverif show-c10 <family> <context> <n>
         let c = args.get(3).cloned().unwrap_or_else(|| "top".into());
